@@ -119,7 +119,7 @@ Proof.
     + intros p. destruct (N.eq_dec p0 p) as [E|E].
       * subst p0. rewrite ps_get_del_same. constructor.
       * rewrite (ps_get_del_other _ _ _ E). apply Hn.
-  - destruct (st_reader st) as [|rq|rq i ss|rq i ss r0] eqn:Epc; try discriminate.
+  - destruct (st_reader st) as [|rq|rq i ss|rq i ss r0|rq i ss r0] eqn:Epc; try discriminate.
     + destruct (st_pending st <? c_limit cfg); [|discriminate].
       unfold reader_top in H. simpl in H.
       set (p := r_peer rq) in *. set (sid := r_sid rq) in *.
@@ -188,9 +188,10 @@ Proof.
         -- apply key_eqb_eq in E. subst k. rewrite get_put_same, Hpc. split; discriminate.
         -- rewrite get_put_other; [tauto|]. intros E'. subst k. rewrite key_eqb_refl in E. discriminate.
       * apply (psinv_same st); simpl; auto; tauto.
+    + unfold reader_add in H. destruct (st_pending st <? c_limit cfg); [|discriminate].
+      inversion H; subst. apply (psinv_same st); simpl; auto; tauto.
     + unfold reader_send in H.
-      destruct ((st_pending st <? c_limit cfg) &&
-                (N.of_nat (length (nth (s_sender ss) (st_senders st) [])) <=? c_maxtasks cfg) &&
+      destruct ((N.of_nat (length (nth (s_sender ss) (st_senders st) [])) <=? c_maxtasks cfg) &&
                 (Nat.ltb (s_sender ss) (length (st_senders st)))); [|discriminate].
       inversion H; subst. apply (psinv_same st); simpl; auto; tauto.
   - destruct (nth i (st_senders st) []) as [|r0 q] eqn:En; [discriminate|].
@@ -265,7 +266,7 @@ Proof.
     inversion H; subst. destruct (N.eq_dec (fst key) p0) as [E|E].
     + right. left. subst p0. left. reflexivity.
     + left. exists ss. simpl. rewrite get_del_all_other by exact E. auto.
-  - destruct (st_reader st) as [|rq|rq i s0|rq i s0 r0] eqn:Epc; try discriminate.
+  - destruct (st_reader st) as [|rq|rq i s0|rq i s0 r0|rq i s0 r0] eqn:Epc; try discriminate.
     + destruct (st_pending st <? c_limit cfg); [|discriminate].
       unfold reader_top in H. simpl in H.
       set (p := r_peer rq) in *. set (sid := r_sid rq) in *.
@@ -295,9 +296,10 @@ Proof.
            simpl. rewrite Hpc in Hg. inversion Hg; subst. auto.
         -- exists ss. rewrite get_put_other; [auto|]. intros E'. subst key. rewrite key_eqb_refl in E. discriminate.
       * left. exists ss. simpl. auto.
+    + unfold reader_add in H. destruct (st_pending st <? c_limit cfg); [|discriminate].
+      inversion H; subst. left. apply Hkeep. reflexivity.
     + unfold reader_send in H.
-      destruct ((st_pending st <? c_limit cfg) &&
-                (N.of_nat (length (nth (s_sender s0) (st_senders st) [])) <=? c_maxtasks cfg) &&
+      destruct ((N.of_nat (length (nth (s_sender s0) (st_senders st) [])) <=? c_maxtasks cfg) &&
                 (Nat.ltb (s_sender s0) (length (st_senders st)))); [|discriminate].
       inversion H; subst. left. apply Hkeep. reflexivity.
   - destruct (nth i (st_senders st) []) as [|r0 q] eqn:En; [discriminate|].
@@ -316,4 +318,143 @@ Proof.
   destruct (s_orig ss =? r_start rq) eqn:E; simpl; [left|right].
   - apply N.eqb_eq in E. auto.
   - apply N.eqb_neq in E. auto.
+Qed.
+
+(* ---------------------------------------------------------------------------------- *)
+(* Round 2: the lifetime rule of the specification (SeederSpec.life_step: resume / new     *)
+(* session / drop the OLDEST of three / unregister) and the model's session handling move   *)
+(* in lockstep.                                                                            *)
+(* ---------------------------------------------------------------------------------- *)
+Definition life_rel (m : list (N * list slive)) (st : state) : Prop :=
+  forall p,
+    map l_sid (peer_live p m) = ps_get p (st_peersess st) /\
+    forall x, In x (peer_live p m) ->
+      exists ss, sess_get (p, l_sid x) (st_sessions st) = Some ss /\
+                 s_creator ss = l_creator x /\ s_orig ss = l_orig x.
+
+Lemma peer_live_set_same : forall p l m, peer_live p (set_peer_live p l m) = l.
+Proof. intros. unfold set_peer_live. simpl. rewrite N.eqb_refl. reflexivity. Qed.
+
+Lemma peer_live_filter_other : forall p q m, p <> q ->
+  peer_live q (filter (fun kv : N * list slive => negb (p =? fst kv)) m) = peer_live q m.
+Proof.
+  intros p q m H. induction m as [|[q' l] m IH]; simpl; [reflexivity|].
+  destruct (p =? q') eqn:E; simpl.
+  - apply N.eqb_eq in E. subst q'. assert (E' : (q =? p) = false) by lia. rewrite E'. exact IH.
+  - destruct (q =? q'); [reflexivity|exact IH].
+Qed.
+
+Lemma peer_live_set_other : forall p q l m, p <> q -> peer_live q (set_peer_live p l m) = peer_live q m.
+Proof.
+  intros p q l m H. unfold set_peer_live. simpl. assert (E : (q =? p) = false) by lia. rewrite E.
+  apply peer_live_filter_other. exact H.
+Qed.
+
+Lemma find_live_in : forall sid l, In sid (map l_sid l) ->
+  exists x, find_live sid l = Some x /\ l_sid x = sid /\ In x l.
+Proof.
+  intros sid l. induction l as [|y l IH]; intros H; simpl in *; [destruct H|].
+  destruct (l_sid y =? sid) eqn:E.
+  - apply N.eqb_eq in E. exists y. auto.
+  - destruct H as [H|H]; [lia|]. destruct (IH H) as [x [H1 [H2 H3]]]. exists x. auto.
+Qed.
+
+Lemma find_live_none : forall sid l, ~ In sid (map l_sid l) -> find_live sid l = None.
+Proof.
+  intros sid l. induction l as [|y l IH]; intros H; simpl in *; [reflexivity|].
+  destruct (l_sid y =? sid) eqn:E.
+  - apply N.eqb_eq in E. exfalso. apply H. left. exact E.
+  - apply IH. intros Hin. apply H. right. exact Hin.
+Qed.
+
+(* the outcome the lifetime rule predicts for a request, read off the model's next state *)
+Definition outcome_agrees (e : list (N * expect)) (rq : request) (st' : state) (evs : list event) : Prop :=
+  match e with
+  | [(t, XMisb)] => t = r_serial rq /\ st_reader st' = RIdle /\ evs = [EMisb (r_peer rq) (r_serial rq)]
+  | [(t, XServe c)] => t = r_serial rq /\ exists ss, st_reader st' = RChunk rq 0 ss /\ s_creator ss = c
+  | _ => False
+  end.
+
+Lemma reader_top_refines : forall cfg m st rq,
+  life_rel m st -> psinv st -> r_chunks rq <= c_maxchunks cfg ->
+  let '(st', evs) := reader_top v_fixed cfg st rq in
+  let '(m', e) := life_step (c_maxchunks cfg) m (SReq rq) in
+  life_rel m' st' /\ outcome_agrees e rq st' evs.
+Proof.
+  intros cfg m st rq HR [He Hn] Hch. unfold reader_top, life_step. simpl.
+  assert (Emax : (c_maxchunks cfg <? r_chunks rq) = false) by lia. rewrite Emax.
+  set (p := r_peer rq). set (sid := r_sid rq).
+  destruct (HR p) as [Hmap Hall].
+  destruct (sess_get (p, sid) (st_sessions st)) as [ss|] eqn:Eg.
+  - (* the session is live *)
+    assert (Hin : In sid (map l_sid (peer_live p m))).
+    { rewrite Hmap. apply He. unfold live. congruence. }
+    destruct (find_live_in _ _ Hin) as [x [Hf [Hx Hxin]]]. rewrite Hf.
+    destruct (Hall x Hxin) as [ss' [Hg' [Hc Ho]]]. rewrite Hx, Eg in Hg'. inversion Hg'; subst ss'.
+    rewrite <- Ho.
+    destruct (s_orig ss =? r_start rq) eqn:Eo; simpl.
+    + split; [exact HR|]. split; [reflexivity|]. exists ss. split; [reflexivity|exact Hc].
+    + split; [exact HR|]. auto.
+  - (* a new session *)
+    assert (Hnotin : ~ In sid (map l_sid (peer_live p m))).
+    { rewrite Hmap. intros Hin. apply He in Hin. unfold live in Hin. congruence. }
+    rewrite (find_live_none _ _ Hnotin).
+    set (l := peer_live p m) in *.
+    set (new := SeederSpec.mkLive sid (r_serial rq) (r_start rq)).
+    assert (Hlen : length (ps_get p (st_peersess st)) = length l) by (rewrite <- Hmap; apply map_length).
+    unfold prune.
+    destruct (ps_get p (st_peersess st)) as [|o rest] eqn:Eps.
+    + (* no session yet *)
+      destruct l as [|y l0] eqn:El; [|simpl in Hlen; discriminate]. simpl.
+      split.
+      * intros q. destruct (N.eq_dec p q) as [E|E].
+        -- subst q. rewrite peer_live_set_same. simpl. rewrite ps_get_put_same. split; [reflexivity|].
+           intros x [<-|[]]. simpl. rewrite get_put_same. eexists. split; [reflexivity|]. auto.
+        -- rewrite (peer_live_set_other _ _ _ _ E). simpl. rewrite (ps_get_put_other _ _ _ _ E).
+           destruct (HR q) as [Hm Ha]. split; [exact Hm|]. intros x Hx. destruct (Ha x Hx) as [s0 [H1 H2]].
+           exists s0. split; [|exact H2]. rewrite get_put_other by congruence. exact H1.
+      * split; [reflexivity|]. eexists. split; reflexivity.
+    + pose proof (Hn p) as Hnd. rewrite Eps in Hnd.
+      destruct l as [|y l0] eqn:El; [simpl in Hlen; discriminate|].
+      simpl in Hmap. inversion Hmap as [[Hy Hrest]]. subst o rest.
+      assert (E3 : (3 <=? N.of_nat (length (y :: l0))) = (2 <? N.of_nat (length (l_sid y :: map l_sid l0)))) by (rewrite Hlen; lia).
+      rewrite E3.
+      destruct (2 <? N.of_nat (length (l_sid y :: map l_sid l0))) eqn:Eprune; simpl; cbv beta iota zeta.
+      * (* the oldest is dropped *)
+        inversion Hnd as [|? ? Ho Hndr]; subst.
+        split.
+        -- intros q. destruct (N.eq_dec p q) as [E|E].
+           ++ subst q. rewrite peer_live_set_same. simpl. rewrite ps_get_put_same. rewrite map_app. simpl.
+              split; [reflexivity|].
+              intros x Hx. apply in_app_or in Hx. destruct Hx as [Hx|[<-|[]]].
+              ** assert (Hxs : In (l_sid x) (map l_sid l0)) by (apply in_map; exact Hx).
+                 assert (Hne1 : l_sid x <> sid) by (intros E; apply Hnotin; right; rewrite <- E; exact Hxs).
+                 assert (Hne2 : l_sid x <> l_sid y) by (intros E; apply Ho; rewrite <- E; exact Hxs).
+                 destruct (Hall x (or_intror Hx)) as [s0 [H1 H2]]. exists s0. split; [|exact H2].
+                 rewrite get_put_other by congruence. rewrite get_del_other by congruence. exact H1.
+              ** simpl. rewrite get_put_same. eexists. split; [reflexivity|]. auto.
+           ++ rewrite (peer_live_set_other _ _ _ _ E). simpl. rewrite (ps_get_put_other _ _ _ _ E).
+              destruct (HR q) as [Hm Ha]. split; [exact Hm|]. intros x Hx. destruct (Ha x Hx) as [s0 [H1 H2]].
+              exists s0. split; [|exact H2]. rewrite get_put_other by congruence.
+              rewrite get_del_other by congruence. exact H1.
+        -- split; [reflexivity|]. eexists. split; reflexivity.
+      * split.
+        -- intros q. destruct (N.eq_dec p q) as [E|E].
+           ++ subst q. rewrite peer_live_set_same. simpl. rewrite ps_get_put_same.
+              change (l_sid y :: map l_sid (l0 ++ [new])) with (map l_sid ((y :: l0) ++ [new])).
+              rewrite map_app. simpl. split; [reflexivity|].
+              intros x Hx.
+              assert (Hx' : In x (y :: l0) \/ x = new).
+              { destruct Hx as [Hx|Hx]; [left; left; exact Hx|]. apply in_app_or in Hx.
+                destruct Hx as [Hx|[Hx|[]]]; [left; right; exact Hx|right; symmetry; exact Hx]. }
+              destruct Hx' as [Hx'|Hx']; [|subst x].
+              ** assert (Hxs : In (l_sid x) (map l_sid (y :: l0))) by (apply in_map; exact Hx').
+                 assert (Hne1 : l_sid x <> sid) by (intros E; apply Hnotin; rewrite <- E; exact Hxs).
+                 destruct (Hall x Hx') as [s0 [H1 H2]]. exists s0. split; [|exact H2].
+                 rewrite get_put_other by congruence. exact H1.
+              ** simpl. rewrite get_put_same. eexists. split; [reflexivity|]. auto.
+           ++ rewrite (peer_live_set_other _ _ _ _ E). simpl. rewrite (ps_get_put_other _ _ _ _ E).
+              destruct (HR q) as [Hm Ha]. split; [exact Hm|]. intros x Hx. destruct (Ha x Hx) as [s0 [H1 H2]].
+              exists s0. split; [|exact H2]. rewrite get_put_other by congruence. exact H1.
+        -- split; [reflexivity|]. eexists. split; reflexivity.
 Qed.
